@@ -282,16 +282,27 @@ def run(ck):
         ck.violation(key, "program `%s`: storage cell %s = %s, eager value %s (the lazy right-hand side reads an already overwritten cell)"
                      % (" ".join(s[0] for s in P.stmts), f["output"], f["code_value_exact"], f["spec_value_exact"]), rep, True)
     if not res.ok:
-        def search(fl):
-            thm = fl.get("theorem") or ""
-            if thm in all_units and thm in by_name:
-                P = by_name[thm]
-                fnd, _ = t1.search_units(ck, [all_units[thm]], {thm: spec_of(P)}, random.Random(ck.seed + 99), None, trials=200)
-                if fnd:
-                    fnd[0]["program"] = [s[0] for s in P.stmts]
-                    return fnd[0]
-            return None
-        ck.lean_violations(res, search)
+        # a program obligation that no longer checks: look for a failing input of that program (same key as a
+        # refuted program: the defect class, not the program number); everything else through lean_violations
+        prog_failed = [fl for fl in res.failed if (fl.get("theorem") or "") in by_name]
+        other = [fl for fl in res.failed if fl not in prog_failed]
+        for fl in prog_failed:
+            thm = fl["theorem"]
+            P = by_name[thm]
+            fnd, _ = t1.search_units(ck, [all_units[thm]], {thm: spec_of(P)}, random.Random(ck.seed + 99),
+                                     bins["c17p%d" % (progs.index(P) // per_tu)], trials=200)
+            rep = {"broken_obligation": fl, "program": [s[0] for s in P.stmts],
+                   "declarations": [P.storages[s][1] for s in P.order] + P.decls, "aliasing_classes": P.hazards}
+            if fnd:
+                rep.update(fnd[0])
+                ck.violation(hazard_key(P), "program `%s`: storage cell %s = %s, eager value %s" % (
+                    " ".join(s[0] for s in P.stmts), fnd[0]["output"], fnd[0]["code_value_exact"], fnd[0]["spec_value_exact"]), rep, True)
+            else:
+                ck.violation("thm:" + hazard_key(P), "theorem %s (program `%s`) no longer checks (%s)" % (
+                    thm, " ".join(s[0] for s in P.stmts), fl.get("msg", "")[:120]), rep, False)
+        res.failed = other
+        ck.lean_violations(res, None)
+        res.failed = other + prog_failed
     # ---- (a) index maps
     cov_a = index_maps(ck, [bins["c17idx1"], bins["c17idx2"], bins["c17idx3"]], driver)
     if ck.tier == "thorough" and res.ok:
